@@ -4,7 +4,14 @@ Both real dispatchers on the virtual loop. Producers failing in initialize / mai
 early) / finalize; exit paths: sources exhausted, stop() from a handler, handler error with stop_on_handler_exceptions,
 stop() injected at EVERY loop step, external task.cancel() injected at EVERY loop step (thorough: stop followed by
 cancel, and two cancels); due events, due jobs and idle handlers competing for a pool of 1..3; short and very long
-handlers; root log level WARNING / DEBUG.
+handlers; root log level WARNING / DEBUG; an application-installed log record factory. Handlers registered with
+subscribe_all (front-running and trailing, two of each, the first one raising), idle handlers that raise, events and jobs
+that become due LATER than the failing handler (also a job beyond the last event of a backtest).
+
+Besides counting handler entries the harness records how every handler invocation ended (returned / raised / cancelled),
+which handlers were still running when run() ended (nobody may be: in-flight handlers are cancelled by the dispatcher), and
+the moment of every stop trigger (injected fault, stop() from a handler, handler error with stop-on-error, producer
+failure), from which the run must end promptly.
 """
 import asyncio
 import collections
@@ -21,25 +28,41 @@ from worlds.dsp import T, run_on_vloop
 
 PROPERTY = "C14"
 RULE = ("scenario = (dispatcher kind, failure mode per producer, max_concurrent, injected fault kind, #due jobs, #due "
-        "events per source, handler flavour, handler duration, #idle handlers, log level); per scenario the fault is "
-        "injected at every loop step in turn (one execution per step, plus the fault-free execution). Distinct = "
-        "distinct (scenario, call trace, outcome); non-trivial = the run got past initialisation.")
+        "events per source, handler flavour, handler duration, #idle handlers, log level, options: later events and jobs / "
+        "application log record factory / instant of the limiting stop()); per scenario the fault is injected at every "
+        "loop step in turn up to inject_steps (one execution per step, plus the fault-free execution); "
+        "`runs_longer_than_injection_window` counts fault-free executions that took more loop steps than that window. "
+        "Distinct = distinct (scenario, call trace, outcome); non-trivial = the run got past initialisation.")
 ASSUMPTIONS = [
     "2 producers (quick) / up to 3 (thorough); producer set order fixed by harness-defined __hash__, all orders via "
     "the product of failure modes",
     "faults are injected at loop-step granularity (between two callbacks of the event loop), which is the only place "
     "where asyncio code can observe them",
-    "the realtime dispatcher never ends by itself: its executions are ended by a stop() at 0.5 virtual seconds and "
-    "watched up to a horizon of 5 virtual seconds",
-    "promptness = the run ends within 1 virtual second of the injected stop/cancel although handlers sleep for 500",
+    "the realtime dispatcher never ends by itself: its executions are ended by a stop() at 0.5 virtual seconds (0.2 "
+    "in the scenarios with idle handlers, 0.3 in those with later events) and watched up to a horizon of 5 virtual seconds",
+    "promptness = the run ends within 1 virtual second of the first stop trigger (injected stop/cancel, stop() from a "
+    "handler, handler error with stop-on-error, producer failure, limiting stop) although handlers / jobs sleep for 500",
+    "how a handler ended is only judged in runs nobody disturbed (no injection, no producer failure, no stop from a "
+    "handler) in which some handler / job / idle handler raises: there every other event / job handler runs to its end",
+    "the order in which the catch-all handlers of one stage start is not observed; signal-driven stop is not explored "
+    "(stop_signals=[])",
 ]
-BOUNDS = {"quick": dict(producers=2, inject_steps=400, deviation_bound=1),
-          "thorough": dict(producers=3, inject_steps=600, deviation_bound=2)}
+BOUNDS = {"quick": dict(producers=2, inject_steps=1300, deviation_bound=1),
+          "thorough": dict(producers=3, inject_steps=2500, deviation_bound=2)}
 EXPLANATION = ("implementation-level model checking with fault injection at every loop step; "
                "traces_validated_against_impl counts executions re-run from their recorded choices with identical "
                "observations")
 FAILS = (None, "init", "main0", "main1", "mainret", "fin")
 LONG = 500.0
+LATE = 0.05        # later events / jobs (options: late)
+BEYOND = 0.08      # a job beyond the last event
+SHORT_LIMIT = 0.2
+HD = 0.012         # handler duration in the scenarios with later events: a little more than one poll period
+IDLE_SLEEP = 0.008
+
+
+def _opts(**kw):
+    return tuple(sorted(kw.items()))
 
 
 class PErr(Exception):
@@ -47,7 +70,8 @@ class PErr(Exception):
 
 
 class Prod(event.Producer):
-    def __init__(self, name, fail, log, hashv, loop_time, long_main):
+    def __init__(self, name, fail, log, hashv, loop_time, long_main, trigger=lambda: None):
+        self.trigger = trigger
         self.name = name
         self.fail = fail
         self.log = log
@@ -66,15 +90,18 @@ class Prod(event.Producer):
         self.log.append(("init-start", self.name))
         await asyncio.sleep(0)
         if self.fail == "init":
+            self.trigger()
             raise self.exc
         self.log.append(("init-end", self.name))
 
     async def main(self):
         self.log.append(("main-start", self.name))
         if self.fail == "main0":
+            self.trigger()
             raise self.exc
         await asyncio.sleep(0.02)
         if self.fail == "main1":
+            self.trigger()
             raise self.exc
         if self.fail == "mainret":
             return
@@ -116,13 +143,31 @@ def scenarios(tier, seed):
                         out.append((kind, fails, maxc, inject, 2, 2, hflavour, 0.03, 0, "WARNING"))
                     out.append((kind, fails, maxc, inject, 1, 2, "plain", LONG, 0, "WARNING"))
                     if kind == "rt":
-                        out.append((kind, fails, maxc, inject, 2, 2, "plain", 0.03, 2, "WARNING"))
-                        out.append((kind, fails, maxc, inject, 0, 1, "plain", 0.0, 1, "WARNING"))
+                        out.append((kind, fails, maxc, inject, 2, 2, "plain", 0.03, 2, "WARNING", _opts(limit=SHORT_LIMIT)))
+                        out.append((kind, fails, maxc, inject, 0, 1, "plain", 0.0, 1, "WARNING", _opts(limit=SHORT_LIMIT)))
+        # catch-all handlers (all three stages of an event's dispatch), a raising one first in its stage; handlers and jobs
+        # that fail followed by LATER events and jobs; stop / stop-on-error next to very long handlers and jobs; raising idle
+        # handlers followed by later events and jobs
+        for fails in ((None, None), (None, "main1")):
+            for maxc in (1, 2):
+                for inject in (None, "stop", "cancel"):
+                    late = _opts(late=True, limit=0.3)  # (a pool of 1 needs 0.2 s for the three stages of four events)
+                    for hflavour in ("post-raises", "pre-raises", "raises", "job-raises"):
+                        out.append((kind, fails, maxc, inject, 1, 1, hflavour, HD, 0, "WARNING", late))
+                    for hflavour in ("stops", "raises-stop"):
+                        out.append((kind, fails, maxc, inject, 1, 2, hflavour, LONG, 0, "WARNING"))
+                    if kind == "rt":
+                        for nidle in (1, 2):
+                            out.append((kind, fails, maxc, inject, 1, 1, "idle-raises", HD, nidle, "WARNING",
+                                        _opts(late=True, limit=SHORT_LIMIT)))
         # logging
         for fails in ((None, None), ("init", None), (None, "main0"), ("fin", None)):
             for inject in (None, "stop", "cancel"):
                 for nev in (0, 1):
                     out.append((kind, fails, 2, inject, 1 if nev else 0, nev, "raises" if nev else "plain", 0.03, 0, "DEBUG"))
+                    # an application that installed its own log record factory before the run
+                    out.append((kind, fails, 2, inject, 1 if nev else 0, nev, "raises" if nev else "plain", 0.03, 0,
+                                "DEBUG" if nev else "WARNING", _opts(factory=True)))
         # two injections (quick: double cancellation only, within the first 150 loop steps)
         if tier == "quick":
             out.append((kind, (None, None), 1, "cancel+cancel", 1, 2, "plain", LONG, 0, "WARNING"))
@@ -141,28 +186,51 @@ def scenarios(tier, seed):
     return out
 
 
+def parse(sc):
+    kind, fails, maxc, inject, njobs, nev, hflavour, hdur, nidle, loglevel = sc[:10]
+    opts = dict(sc[10]) if len(sc) > 10 else {}
+    return kind, fails, maxc, inject, njobs, nev, hflavour, hdur, nidle, loglevel, opts
+
+
+def expected_work(sc):
+    """(#event dispatches, #jobs) of a run that handles everything."""
+    kind, fails, maxc, inject, njobs, nev, hflavour, hdur, nidle, loglevel, opts = parse(sc)
+    late = 1 if opts.get("late") else 0
+    return len(fails) * (nev + late), njobs + 2 * late
+
+
 def make_run(sc, tier, states=None):
-    kind, fails, maxc, inject, njobs, nev, hflavour, hdur, nidle, loglevel = sc
+    kind, fails, maxc, inject, njobs, nev, hflavour, hdur, nidle, loglevel, opts = parse(sc)
     inject_steps = BOUNDS[tier]["inject_steps"]
     kinds = inject.split("+") if inject else []
     if len(kinds) > 1 and tier == "quick":
         inject_steps = 150
+    late = bool(opts.get("late"))
+    limit = opts.get("limit", 0.5)
 
     def run_one(ch):
         log = []
         d = bs.backtesting_dispatcher(maxc) if kind == "bt" else bs.realtime_dispatcher(maxc)
         d.stop_on_handler_exceptions = hflavour == "raises-stop"
-        state = {"task": None, "injected": [], "loop": None, "inj_time": None}
+        state = {"task": None, "injected": [], "loop": None, "inj_time": None, "trigger": None}
 
         def lt():
             return state["loop"].time() if state["loop"] else 0.0
-        prods = [Prod(f"p{i}", f, log, i, lt, LONG * 4 if kind == "bt" else 0.3) for i, f in enumerate(fails)]
-        srcs = [bs.FifoQueueEventSource(producer=p, events=[bs.Event(T(0.0)) for _ in range(nev)]) for p in prods]
+
+        def trigger():
+            # the first moment from which the run has to end
+            if state["trigger"] is None:
+                state["trigger"] = lt()
+        prods = [Prod(f"p{i}", f, log, i, lt, LONG * 4 if kind == "bt" else 0.3, trigger) for i, f in enumerate(fails)]
+        srcs = [bs.FifoQueueEventSource(producer=p, events=[bs.Event(T(0.0)) for _ in range(nev)] +
+                                        ([bs.Event(T(LATE))] if late else [])) for p in prods]
         inflight = [0]
         maxin = [0]
         counts = collections.Counter()
+        left = collections.Counter()   # (what, how it ended) -> n
 
         active = collections.Counter()  # event serial / job key -> running handlers
+        idle_active = [0]
         serial = [0]
 
         def key_of(e):
@@ -178,65 +246,95 @@ def make_run(sc, tier, states=None):
             counts[what] += 1
             log.append((what,))
 
-        def leave(key):
+        def leave(key, what, how):
             active[key] -= 1
             inflight[0] = sum(1 for v in active.values() if v > 0)
+            left[(what, how)] += 1
 
-        async def ha(e):
-            enter("ha", key_of(e))
-            try:
-                if hflavour in ("raises", "raises-stop"):
-                    raise ValueError("handler fails")
-                if hflavour == "stops":
-                    d.stop()
-                if hdur:
-                    await asyncio.sleep(hdur)
-            finally:
-                leave(key_of(e))
-
-        async def hb(e):
-            enter("hb", key_of(e))
-            try:
-                if hdur:
-                    await asyncio.sleep(hdur)
-            finally:
-                leave(key_of(e))
+        def mkh(what, raises=False, stops=False, dur=hdur):
+            async def h(e):
+                k = key_of(e)
+                enter(what, k)
+                how = "cancelled"
+                try:
+                    if raises:
+                        how = "raised"
+                        if d.stop_on_handler_exceptions:
+                            trigger()
+                        raise ValueError("handler fails")
+                    if stops:
+                        trigger()
+                        d.stop()
+                    if dur:
+                        await asyncio.sleep(dur)
+                    how = "returned"
+                finally:
+                    leave(k, what, how)
+            return h
 
         def mkjob(k):
             async def job():
                 enter("job", ("job", k))
+                how = "cancelled"
                 try:
                     if hflavour == "job-raises" and k == 0:
+                        how = "raised"
                         raise ValueError("job fails")
                     if hdur:
-                        await asyncio.sleep(min(hdur, 0.03))
+                        await asyncio.sleep(hdur if hdur >= LONG else min(hdur, 0.03))  # (long handlers => long jobs)
+                    how = "returned"
                 finally:
-                    leave(("job", k))
+                    leave(("job", k), "job", how)
             return job
 
+        ha = mkh("ha", raises=hflavour in ("raises", "raises-stop"), stops=hflavour == "stops")
+        hb = mkh("hb")
         for s in srcs:
             d.subscribe(s, ha)
             d.subscribe(s, hb)
+        # catch-all handlers: the first of its stage raises at once, its sibling takes its time
+        if hflavour == "pre-raises":
+            d.subscribe_all(mkh("pre0", raises=True), front_run=True)
+            d.subscribe_all(mkh("pre1"), front_run=True)
+            d.subscribe_all(mkh("post0"))
+        elif hflavour == "post-raises":
+            d.subscribe_all(mkh("pre0"), front_run=True)
+            d.subscribe_all(mkh("post0", raises=True))
+            d.subscribe_all(mkh("post1"))
         for k in range(njobs):
             d.schedule(T(0.0), mkjob(k))
+        if late:
+            d.schedule(T(BEYOND), mkjob(njobs + 1))   # beyond the last event (not in heap order)
+            d.schedule(T(LATE), mkjob(njobs))
         for k in range(nidle):
             async def idle(k=k):
                 counts["idle"] += 1
-                await asyncio.sleep(0.004)
+                counts["idle%d" % k] += 1
+                idle_active[0] += 1
+                try:
+                    if hflavour == "idle-raises" and k == 0 and counts["idle0"] == 1:
+                        raise ValueError("idle handler fails")
+                    await asyncio.sleep(IDLE_SLEEP)
+                finally:
+                    idle_active[0] -= 1
             d.subscribe_idle(idle)
 
         async def main():
             state["task"] = asyncio.current_task()
             if kind == "rt":
                 async def limiter():
-                    await asyncio.sleep(0.5)
+                    await asyncio.sleep(limit)
                     state["limited"] = True
                     log.append(("limiter-stop",))
+                    trigger()
                     d.stop()
                 state["limiter"] = asyncio.ensure_future(limiter())
             try:
                 await d.run(stop_signals=[])
             finally:
+                # whoever is still between entry and exit now was neither awaited nor cancelled by the dispatcher
+                state["running_at_end"] = sorted(str(k) for k, v in active.items() if v > 0) + \
+                    (["idle"] if idle_active[0] > 0 else [])
                 if kind == "rt":
                     state["limiter"].cancel()
 
@@ -250,6 +348,7 @@ def make_run(sc, tier, states=None):
                     state["injected"].append(loop.steps)
                     if state["inj_time"] is None:
                         state["inj_time"] = loop.time()
+                    trigger()
                     log.append(("inject", kinds[k]))
                     try:
                         if kinds[k] == "stop":
@@ -263,6 +362,14 @@ def make_run(sc, tier, states=None):
         root = logging.getLogger()
         cap = None
         old_level = root.level
+        f_prev = logging.getLogRecordFactory()
+        if opts.get("factory"):
+            # an application that adds its own attribute to every record (logging cookbook) before the run
+            def app_factory(*args, **kwargs):
+                rec = f_prev(*args, **kwargs)
+                rec.app_tag = "app"
+                return rec
+            logging.setLogRecordFactory(app_factory)
         f0 = logging.getLogRecordFactory()
         if loglevel == "DEBUG":
             cap = _Capture()
@@ -285,23 +392,33 @@ def make_run(sc, tier, states=None):
             rec = f1("verif", logging.WARNING, __file__, 1, "after run", (), None)
             if abs(rec.created - time.time()) > 3600:
                 log_after = "simulated-timestamp-after-run"
+            if opts.get("factory"):
+                # what the application's formatter does with every record
+                if logging.Formatter("[%(app_tag)s] %(message)s").format(rec) != "[app] after run":
+                    log_after = "application-record-attribute-lost"
         except Exception as e:  # noqa
             log_after = "logging-raises:" + type(e).__name__
-        logging.setLogRecordFactory(f0)
+        logging.setLogRecordFactory(f_prev)
         if out == "raised":
             out = "producer-error" if any(exc is p.exc for p in prods) else "raised:" + type(exc).__name__
         errs = [str(c.get("message"))[:50] for c in loop.errors]
         return dict(out=out, log=log, maxin=maxin[0], injected=state["injected"], steps=loop.end_steps,
                     end_time=loop.time(), inj_time=state["inj_time"], limited=bool(state.get("limited")),
-                    counts=dict(counts), errs=errs, log_after=log_after, inject_exc=state.get("inject_exc"))
+                    counts=dict(counts), errs=errs, log_after=log_after, inject_exc=state.get("inject_exc"),
+                    trigger=state["trigger"], running_at_end=state.get("running_at_end", []),
+                    left={f"{w}:{h}": n for (w, h), n in sorted(left.items())})
     return run_one
 
 
+SNIFFERS = {"pre-raises": ("pre0", "pre1", "post0"), "post-raises": ("pre0", "post0", "post1")}
+
+
 def oracle(sc, r):
-    kind, fails, maxc, inject, njobs, nev, hflavour, hdur, nidle, loglevel = sc
+    kind, fails, maxc, inject, njobs, nev, hflavour, hdur, nidle, loglevel, opts = parse(sc)
     bad = []
     log = r["log"]
     n = len(fails)
+    exp_ev, exp_jobs = expected_work(sc)
     inits_end = [i for i, x in enumerate(log) if x[0] == "init-end"]
     mains = [i for i, x in enumerate(log) if x[0] == "main-start"]
     if mains and (len(inits_end) < n or min(mains) < max(inits_end)):
@@ -332,27 +449,42 @@ def oracle(sc, r):
         # a cancelled run that nobody stopped must not pretend it returned normally. (Backtesting: unless everything had
         # been handled already, i.e. the cancellation arrived when the run was over anyway.)
         c = r["counts"]
-        unfinished = kind == "rt" or c.get("ha", 0) < nev * n or c.get("job", 0) < njobs
+        unfinished = kind == "rt" or c.get("ha", 0) < exp_ev or c.get("job", 0) < exp_jobs
         if unfinished and hdur < 1:
             bad.append(("cancel-swallowed", "run() returned normally although the caller cancelled it before it was over "
                         "and nobody stopped it"))
-    # promptness: handlers in flight are cancelled, not awaited
-    if r["inj_time"] is not None and out in ("returned", "cancelled", "producer-error"):
-        if r["end_time"] - r["inj_time"] > 1.0:
-            bad.append(("not-prompt", f"run ended {r['end_time'] - r['inj_time']:.2f} virtual s after the injected fault"))
+    # promptness: handlers in flight are cancelled, not awaited - whatever asked the run to end
+    if r["trigger"] is not None and out in ("returned", "cancelled", "producer-error"):
+        if r["end_time"] - r["trigger"] > 1.0:
+            bad.append(("not-prompt", f"run ended {r['end_time'] - r['trigger']:.2f} virtual s after it had to end "
+                        "(injected fault / stop() / handler error with stop-on-error / producer failure)"))
+    if r["running_at_end"] and out in ("returned", "cancelled", "producer-error"):
+        bad.append(("orphan-handler", f"handlers of {r['running_at_end']} were still running when run() ended (neither "
+                    "awaited nor cancelled)"))
     if r["inject_exc"]:
         bad.append(("stop-raises", f"stop() raised {r['inject_exc']}"))
     if r["log_after"] != "ok":
         bad.append(("logging", r["log_after"]))
-    # fault isolation: in an undisturbed run everything is handled although a handler / job raises
+    if r["errs"]:
+        bad.append(("loop-error", f"the event loop's exception handler was called: {r['errs'][0]}"))
+    # fault isolation: in an undisturbed run everything is handled although a handler / job / idle handler raises
     undisturbed = not injected and not any(fails) and hflavour not in ("stops", "raises-stop")
     if undisturbed and out == "returned" and hdur < 1:
         c = r["counts"]
-        exp_ev = nev * n
         if c.get("ha", 0) != exp_ev or c.get("hb", 0) != exp_ev:
             bad.append(("fault-isolation", f"handlers ran {c.get('ha', 0)}/{c.get('hb', 0)} times for {exp_ev} events"))
-        if c.get("job", 0) != njobs:
-            bad.append(("fault-isolation", f"{c.get('job', 0)} of {njobs} jobs ran"))
+        for sname in SNIFFERS.get(hflavour, ()):
+            if c.get(sname, 0) != exp_ev:
+                bad.append(("fault-isolation", f"catch-all handler {sname} ran {c.get(sname, 0)} times for {exp_ev} events"))
+        if c.get("job", 0) != exp_jobs:
+            bad.append(("fault-isolation", f"{c.get('job', 0)} of {exp_jobs} jobs ran"))
+        # ... and, when one of them raises, the others RUN, i.e. to their end (a sibling / later handler that the dispatcher
+        # cancels half-way has been prevented from running). Judged only where something raises: what the dispatcher does
+        # to handlers in a run without any failure is not part of the statement.
+        cancelled = {k: v for k, v in r["left"].items() if k.endswith(":cancelled")}
+        if cancelled and hflavour in ("raises", "job-raises", "pre-raises", "post-raises", "idle-raises"):
+            bad.append(("fault-isolation", f"a handler raised and other handlers were cancelled although nobody stopped "
+                        f"the run: {cancelled}"))
     return bad
 
 
@@ -364,6 +496,8 @@ def run_scenario(sc, tier):
         if sc[3] and "+" in sc[3] and len(r["injected"]) == 1:
             pass  # single injection of a pair scenario: also legitimate, checked with the same oracle
         res.executions += 1
+        if first and sc[3] and r["steps"] >= (150 if ("+" in sc[3] and tier == "quick") else BOUNDS[tier]["inject_steps"]):
+            res.extra["runs_longer_than_injection_window"] += 1
         res.transitions += r["steps"]
         res.outcomes[(sc[0], sc[3], r["out"])] += 1
         if any(x[0] == "main-start" for x in r["log"]):
@@ -386,9 +520,13 @@ def run_scenario(sc, tier):
     return res
 
 
+def _tuplify(x):
+    return tuple(_tuplify(y) for y in x) if isinstance(x, (list, tuple)) else x
+
+
 def replay(rep):
     s = rep["scenario"]
-    sc = (s[0], tuple(s[1])) + tuple(s[2:])
+    sc = (s[0], tuple(s[1])) + tuple(s[2:10]) + ((_tuplify(s[10]),) if len(s) > 10 else ())
     r = make_run(sc, rep.get("tier", "quick"))(Chooser(rep["choices"]))
     print("scenario:", sc)
     for x in r["log"]:
